@@ -5,8 +5,18 @@ package c03
 // such as 0x80000000 that only one of them lets through is out of reach for random mutation within the quick budget.
 // Every leaf type the grammar generator knows is instantiated a number of times; the 32-bit field at payload offset
 // 4, 8 or 12 is overwritten with each value of a fixed list; the usual interchange oracle judges the result.
+//
+// Second phase (width-aware): the count and length fields that are not 32 bits wide or do not sit at payload offset
+// 4, 8 or 12 (fieldsOf: offsets derived from the ISO/IEC 14496-12 / -15 / -1, 23001-7, ETSI TS 102 366 and VP-ISOBMFF
+// layouts, depending on version and flags of the instance) are overwritten with boundary values of their own width.
+// The table is checked against every legal instance: count x minimal entry size fits into what follows the field.
+//
+// TestFileSizeSweep: the same idea one level up. For whole files written by the grammar generator the size field of each
+// top-level box is overwritten with {0, 1, 7, 8, size-1, size+1, 0xffffffff}; mdat, moof and sidx boxes are given 64-bit
+// size headers (correct, and claiming boundary values); the interchange oracle judges the result at file level.
 
 import (
+	"bytes"
 	"fmt"
 	"testing"
 
@@ -15,13 +25,233 @@ import (
 	"verif/internal/boxgen"
 	"verif/internal/boxmut"
 	"verif/internal/boxprop"
+	"verif/internal/boxwalk"
 	"verif/internal/harness"
 )
 
 var sweepCounts = []uint64{0, 1, 2, 0xff, 0x100, 0xffff, 0x10000, 0xffffff, 0x1000000, 0x7fffffff, 0x80000000, 0x80000001, 0xfffffffe, 0xffffffff}
 
+// field: one count / length field of a box payload. unit > 0: the field counts entries of at least unit bytes that
+// follow it (mask selects the bits of the field that make up the count): used to check the table against the instance.
+type field struct {
+	off, width int
+	unit       int
+	mask       uint64
+	name       string
+}
+
+func be(p []byte, off, width int) uint64 {
+	v := uint64(0)
+	for i := 0; i < width; i++ {
+		v = v<<8 | uint64(p[off+i])
+	}
+	return v
+}
+
+var tfrfUUID = []byte{0xd4, 0x80, 0x7e, 0xf2, 0xca, 0x39, 0x46, 0x95, 0x8e, 0x54, 0x26, 0xcb, 0x9e, 0x46, 0xa7, 0x9f}
+
+// descriptorLengths walks the MPEG-4 descriptors (14496-1 8.3.3: tag, then 1..4 length bytes of 7 bits with a
+// continuation bit) starting at pos and returns the last and, when there are several, the first byte of every length
+// field; it descends into ES_Descriptor (3) and DecoderConfigDescriptor (4).
+func descriptorLengths(p []byte, pos, end int, out *[]field) {
+	for pos+2 <= end {
+		tag := p[pos]
+		l, n := 0, 0
+		for n < 4 && pos+1+n < end {
+			b := p[pos+1+n]
+			l = l<<7 | int(b&0x7f)
+			n++
+			if b&0x80 == 0 {
+				break
+			}
+		}
+		*out = append(*out, field{off: pos + n, width: 1, unit: 1, mask: 0x7f, name: fmt.Sprintf("descriptor %d length (last byte)", tag)})
+		if n > 1 {
+			*out = append(*out, field{off: pos + 1, width: 1, name: fmt.Sprintf("descriptor %d length (first byte)", tag)})
+		}
+		body := pos + 1 + n
+		bend := body + l
+		if bend > end {
+			bend = end
+		}
+		switch tag {
+		case 3:
+			if body+3 <= bend {
+				fl := p[body+2]
+				q := body + 3
+				if fl&0x80 != 0 {
+					q += 2
+				}
+				if fl&0x40 != 0 && q < bend {
+					q += 1 + int(p[q])
+				}
+				if fl&0x20 != 0 {
+					q += 2
+				}
+				descriptorLengths(p, q, bend, out)
+			}
+		case 4:
+			descriptorLengths(p, body+13, bend, out)
+		}
+		pos = bend
+	}
+}
+
+// fieldsOf lists the count/length fields of the payload p of a box of the given type (usertype: the 16 bytes of a uuid box).
+func fieldsOf(typ string, usertype, p []byte) []field {
+	if len(p) < 4 {
+		return nil
+	}
+	ver, flags := p[0], be(p, 1, 3)
+	var out []field
+	switch typ {
+	case "sidx": // 8.16.3: reference_ID, timescale, EPT and first_offset (32 or 64 bit), reserved(16), reference_count(16)
+		off := 22
+		if ver >= 1 {
+			off = 30
+		}
+		out = append(out, field{off: off, width: 2, unit: 12, name: "reference_count"}, field{off: off - 2, width: 2, name: "reserved"})
+	case "saiz": // 8.7.8: [aux_info_type, aux_info_type_parameter], default_sample_info_size(8), sample_count(32)
+		base := 4
+		if flags&1 != 0 {
+			base = 12
+		}
+		out = append(out, field{off: base, width: 1, name: "default_sample_info_size"})
+		if len(p) > base && p[base] == 0 {
+			out = append(out, field{off: base + 1, width: 4, unit: 1, name: "sample_count"})
+		} else {
+			out = append(out, field{off: base + 1, width: 4, name: "sample_count"})
+		}
+	case "saio": // 8.7.9
+		base, unit := 4, 4
+		if flags&1 != 0 {
+			base = 12
+		}
+		if ver >= 1 {
+			unit = 8
+		}
+		out = append(out, field{off: base, width: 4, unit: unit, name: "entry_count"})
+	case "pssh": // 23001-7 8.1: SystemID(16), version>0: KID_count(32) + KIDs, DataSize(32)
+		if ver == 0 {
+			out = append(out, field{off: 20, width: 4, unit: 1, name: "DataSize"})
+		} else if len(p) >= 24 {
+			n := int(be(p, 20, 4))
+			out = append(out, field{off: 20, width: 4, unit: 16, name: "KID_count"}, field{off: 24 + 16*n, width: 4, unit: 1, name: "DataSize"})
+		}
+	case "sgpd": // 8.9.3: grouping_type, version>=1 default_length, version>=2 default_group_description_index, entry_count
+		switch {
+		case ver == 0:
+			out = append(out, field{off: 8, width: 4, unit: 1, name: "entry_count"})
+		case len(p) >= 12:
+			unit := int(be(p, 8, 4))
+			if unit == 0 {
+				unit = 4 // every entry starts with its description_length
+			}
+			cnt := 12
+			if ver >= 2 {
+				cnt = 16
+				out = append(out, field{off: 12, width: 4, name: "default_group_description_index"})
+			}
+			out = append(out, field{off: 8, width: 4, name: "default_length"}, field{off: cnt, width: 4, unit: unit, name: "entry_count"})
+		}
+	case "hvcC": // 14496-15 8.3.3.1.2: 22 bytes of fixed fields, numOfArrays(8); per array: type(8), numNalus(16), {nalUnitLength(16), NAL unit}
+		out = append(out, field{off: 22, width: 1, unit: 3, name: "numOfArrays"})
+		if len(p) > 22 && p[22] > 0 {
+			out = append(out, field{off: 24, width: 2, unit: 2, name: "numNalus"})
+			if len(p) >= 26 && be(p, 24, 2) > 0 {
+				out = append(out, field{off: 26, width: 2, unit: 1, name: "nalUnitLength"})
+			}
+		}
+	case "avcC": // 14496-15 5.3.3.1.2: 4 bytes, reserved(6)+lengthSizeMinusOne(2), reserved(3)+numOfSPS(5), {length(16), SPS}, numOfPPS(8), {length(16), PPS}
+		out = append(out, field{off: 4, width: 1, name: "lengthSizeMinusOne"}, field{off: 5, width: 1, unit: 2, mask: 0x1f, name: "numOfSequenceParameterSets"})
+		if len(p) < 6 {
+			break
+		}
+		pos := 6
+		for i := 0; i < int(p[5]&0x1f) && pos+2 <= len(p); i++ {
+			if i == 0 {
+				out = append(out, field{off: pos, width: 2, unit: 1, name: "sequenceParameterSetLength"})
+			}
+			pos += 2 + int(be(p, pos, 2))
+		}
+		if pos < len(p) {
+			out = append(out, field{off: pos, width: 1, unit: 2, name: "numOfPictureParameterSets"})
+			if p[pos] > 0 {
+				out = append(out, field{off: pos + 1, width: 2, unit: 1, name: "pictureParameterSetLength"})
+			}
+		}
+	case "subs": // 8.7.7: entry_count(32); per entry sample_delta(32), subsample_count(16), subsamples of 6 (version 1: 8) bytes
+		unit := 6
+		if ver == 1 {
+			unit = 8
+		}
+		if len(p) >= 8 && be(p, 4, 4) > 0 {
+			out = append(out, field{off: 12, width: 2, unit: unit, name: "subsample_count"})
+		}
+	case "uuid":
+		if bytes.Equal(usertype, tfrfUUID) { // MS-SSTR 2.2.4.5 TfrfBox: fragment_count(8), then absolute time + duration (32 or 64 bit each)
+			unit := 8
+			if ver == 1 {
+				unit = 16
+			}
+			out = append(out, field{off: 4, width: 1, unit: unit, name: "tfrf fragment_count"})
+		}
+	case "esds": // 14496-14 5.6: ES_Descriptor behind version/flags
+		descriptorLengths(p, 4, len(p), &out)
+	case "stz2": // 8.7.3.3: reserved(24), field_size(8), sample_count(32)
+		out = append(out, field{off: 7, width: 1, name: "field_size"})
+	case "leva": // 8.8.13: level_count(8); per level track_id(32), padding_flag+assignment_type(8), 0..8 more bytes
+		out = append(out, field{off: 4, width: 1, unit: 5, name: "level_count"})
+	case "tlou", "alou": // 12.2.7: version>=1: reserved(2)+loudness_base_count(6); per base [EQ(8)], ids(16), peaks(24), system+reliability(8), measurement_count(8), measurements of 3 bytes
+		if ver == 0 {
+			out = append(out, field{off: 10, width: 1, unit: 3, name: "measurement_count"})
+		} else {
+			out = append(out, field{off: 4, width: 1, unit: 8, mask: 0x3f, name: "loudness_base_count"})
+			if len(p) > 4 && p[4]&0x3f > 0 {
+				out = append(out, field{off: 12, width: 1, unit: 3, name: "measurement_count"})
+			}
+		}
+	case "dec3": // ETSI TS 102 366 F.6: data_rate(13)+num_ind_sub(3); per independent substream 3 or 4 bytes
+		out = append(out, field{off: 0, width: 2, name: "data_rate+num_ind_sub"}, field{off: 1, width: 1, unit: 3, mask: 7, name: "num_ind_sub"})
+	case "vpcC": // VP-ISOBMFF: profile, level, bitDepth.., primaries, transfer, matrix, codecInitializationDataSize(16)
+		out = append(out, field{off: 10, width: 2, unit: 1, name: "codecInitializationDataSize"})
+	case "ssix": // 8.16.4: subsegment_count(32); per subsegment range_count(32), {level(8), range_size(24)}
+		if len(p) >= 12 && be(p, 4, 4) > 0 && be(p, 8, 4) > 0 {
+			out = append(out, field{off: 12, width: 1, name: "level"}, field{off: 13, width: 3, name: "range_size"})
+		}
+	case "trun": // 8.8.8: sample_count(32), [data_offset], [first_sample_flags], samples: the 16 bits of sample_count halves
+		out = append(out, field{off: 4, width: 2, name: "sample_count (high half)"}, field{off: 6, width: 2, unit: 0, name: "sample_count (low half)"})
+	}
+	var fit []field
+	for _, f := range out {
+		if f.off >= 0 && f.off+f.width <= len(p) {
+			fit = append(fit, f)
+		}
+	}
+	return fit
+}
+
+// boundary values of a field of the given width in bytes
+func fieldValues(width int) []uint64 {
+	if width == 4 {
+		return sweepCounts
+	}
+	top := uint64(1) << uint(8*width)
+	vals := []uint64{0, 1, 2, top/2 - 1, top / 2, top - 2, top - 1}
+	if width >= 2 {
+		vals = append(vals, 0xff, 0x100)
+	}
+	if width == 1 {
+		vals = append(vals, 0x1f, 0x20, 0x3f, 0x40)
+	}
+	return vals
+}
+
+// sweepTypes: every leaf type plus the counted containers (entry_count at payload offset 4).
+func sweepTypes() []string { return append(boxgen.LeafTypes(), "stsd", "dref") }
+
 func TestCountSweep(t *testing.T) {
-	types := boxgen.LeafTypes()
+	types := sweepTypes()
 	instances := harness.Pick(6, 30)
 	bad := 0
 	for ti, typ := range types {
@@ -58,9 +288,137 @@ func TestCountSweep(t *testing.T) {
 			}
 		}
 		harness.Rec.BulkDistinct(n, int64(crossed), "countsweep-"+typ)
+		// ---- width-aware fields
+		crossed, n = 0, 0
+		fieldsSeen := map[string]bool{}
+		for i := 0; i < instances; i++ {
+			base := gen.Example(i)
+			tree, err := boxwalk.WalkAll(base)
+			if err != nil || len(tree) != 1 {
+				continue
+			}
+			b := tree[0]
+			p := base[b.PayloadStart():b.End()]
+			var usertype []byte
+			if typ == "uuid" {
+				usertype = base[b.PayloadStart()-16 : b.PayloadStart()]
+			}
+			for _, fd := range fieldsOf(typ, usertype, p) {
+				if fd.unit > 0 {
+					v := be(p, fd.off, fd.width)
+					if fd.mask != 0 {
+						v &= fd.mask
+					}
+					if v*uint64(fd.unit) > uint64(len(p)-fd.off-fd.width) {
+						harness.ReportDirect(t, "interchange", boxprop.Case{Box: -1, Level: "box", Path: "sr", Synth: base, Origin: "box:" + typ},
+							harness.Failf("harness|c03sweep|field table does not match a legal instance", "%s %s at payload offset %d width %d: value %d x %d bytes does not fit into the %d bytes behind it", typ, fd.name, fd.off, fd.width, v, fd.unit, len(p)-fd.off-fd.width))
+						return
+					}
+				}
+				fieldsSeen[fd.name] = true
+				for _, v := range fieldValues(fd.width) {
+					for _, path := range []string{"reader", "sr"} {
+						c := boxprop.Case{Box: -1, Level: "box", Path: path, Synth: base, Origin: "box:" + typ,
+							Muts: []boxmut.Mut{{Op: "payload", Box: 0, Off: fd.off, N: fd.width, Val: v}}}
+						f := harness.Guarded(func() *harness.Fail { return checkInterchange(c) })
+						n++
+						if last.canonical {
+							crossed++
+						}
+						if f != nil && harness.ReportDirect(t, "interchange", c, f) {
+							bad++
+						}
+						if bad > 5 {
+							return
+						}
+					}
+				}
+			}
+		}
+		if n > 0 {
+			harness.Rec.BulkDistinct(n, int64(crossed), "fieldsweep-"+typ)
+			for name := range fieldsSeen {
+				harness.Rec.Class("fieldsweep-" + typ + ":" + name)
+			}
+		}
 		if harness.Rec.WantSample() {
 			harness.Rec.Sample(map[string]interface{}{"kind": "countsweep", "type": typ, "instances": instances, "cases": n, "canonical-strings-crossed": crossed})
 		}
 	}
-	harness.Rec.Exhaustive(fmt.Sprintf("count sweep: %d leaf types x %d grammar instances x 32-bit field at payload offset 4/8/12 x %d boundary values x {reader, sr}", len(types), instances, len(sweepCounts)))
+	harness.Rec.Exhaustive(fmt.Sprintf("count sweep: (%d leaf types + stsd, dref) x %d grammar instances x 32-bit field at payload offset 4/8/12 x %d boundary values x {reader, sr}; then the 8/16/24/32-bit count and length fields of fieldsOf (sidx, saiz, saio, pssh, sgpd, hvcC, avcC, subs, tfrf, esds, stz2, leva, tlou, alou, dec3, vpcC, ssix, trun) x boundary values of their width x {reader, sr}", len(types)-2, instances, len(sweepCounts)))
+}
+
+// ---------------------------------------------------------------------------------------------
+// file level: size fields and 64-bit size headers of the top-level boxes
+
+var fileSweepKinds = []string{"prog", "init", "media", "frag"}
+
+func TestFileSizeSweep(t *testing.T) {
+	instances := harness.Pick(20, 100)
+	bad := 0
+	for ki, kind := range fileSweepKinds {
+		kind := kind
+		gen := rapid.Custom(func(rt *rapid.T) []byte { return boxgen.File(rt, kind, boxgen.Opt{}) })
+		crossed, accepted, n := 0, 0, int64(0)
+		large := map[string]int64{}
+		for i := 0; i < instances; i++ {
+			if (ki*instances+i)%harness.E.NShards != harness.E.Shard {
+				continue
+			}
+			base := gen.Example(i)
+			tree, err := boxwalk.WalkAll(base)
+			if err != nil {
+				continue
+			}
+			flat := boxwalk.Flatten(tree)
+			var muts [][]boxmut.Mut
+			for idx, b := range flat {
+				if b.Depth != 0 {
+					continue
+				}
+				// the 32-bit size field: absolute values, one less, one more
+				for _, v := range []uint64{0, 1, 7, 8, 0xffffffff} {
+					muts = append(muts, []boxmut.Mut{{Op: "size", Box: idx, Val: v}})
+				}
+				muts = append(muts, []boxmut.Mut{{Op: "size", Box: idx, Val: 1, N: 2}}, []boxmut.Mut{{Op: "size", Box: idx, Val: 1, N: 1}})
+				// 64-bit size headers (14496-12 4.2 allows them on every box)
+				if b.Type == "mdat" || b.Type == "moof" || b.Type == "sidx" {
+					large[b.Type]++
+					muts = append(muts, []boxmut.Mut{{Op: "largesize", Box: idx}})
+					sz := uint64(b.Size + 8)
+					for _, v := range []uint64{0, 1, 15, 16, sz - 1, sz + 1, 0xffffffff, 0x100000000, 0x7fffffffffffffff, 0x8000000000000000, 0xffffffffffffffff} {
+						muts = append(muts, []boxmut.Mut{{Op: "largesize", Box: idx, N: 1, Val: v}})
+					}
+				}
+			}
+			for _, m := range muts {
+				for _, path := range []string{"reader", "sr"} {
+					c := boxprop.Case{Box: -1, Level: "file", Path: path, Synth: base, Origin: "file:" + kind, Muts: m, Opt: true}
+					f := harness.Guarded(func() *harness.Fail { return checkInterchange(c) })
+					n++
+					if last.accepted {
+						accepted++
+					}
+					if last.canonical {
+						crossed++
+					}
+					if f != nil && harness.ReportDirect(t, "interchange", c, f) {
+						bad++
+					}
+					if bad > 5 {
+						return
+					}
+				}
+			}
+		}
+		harness.Rec.BulkDistinct(n, int64(crossed), "filesizesweep-"+kind)
+		harness.Rec.ClassN("filesizesweep-accepted-"+kind, int64(accepted))
+		for ty, k := range large {
+			harness.Rec.ClassN("filesizesweep-largesize-"+ty, k)
+		}
+		if harness.Rec.WantSample() {
+			harness.Rec.Sample(map[string]interface{}{"kind": "filesizesweep", "file": kind, "cases": n, "accepted": accepted, "canonical-strings-crossed": crossed})
+		}
+	}
+	harness.Rec.Exhaustive(fmt.Sprintf("file size sweep: %v x %d grammar-generated files x every top-level box x size field in {0, 1, 7, 8, size-1, size+1, 0xffffffff} + (mdat, moof, sidx) x 64-bit size header {correct, 0, 1, 15, 16, size-1, size+1, 2^32-1, 2^32, 2^63-1, 2^63, 2^64-1} x {reader, sr}", fileSweepKinds, instances))
 }
